@@ -262,6 +262,8 @@ where
             let v: Vec<u64> = out.to_vec().iter().map(|x| x.val()).collect();
             format!("v{}", nats(&v))
         }
+        // Rust-side iterators are never issued by a script (`Case::valid`, `Block::case`)
+        Op::ItNew(..) | Op::ItNext(_) | Op::ItDrop(_) => "unsupported".into(),
         Op::Join(i, k) => {
             let j = f.join.as_ref().expect("join is for List[String]");
             let s = j.call(h(slots, *i), super::SEPS[*k].into());
